@@ -72,6 +72,7 @@ var (
 	flagDeadline = flag.Int("deadline-s", 900, "wall-clock budget per harness")
 	flagTrace    = flag.String("trace", "", "write solver traffic of worker 0 to this file")
 	flagVerbose  = flag.Bool("v", false, "verbose")
+	flagRedirect = flag.String("redirect", "", "semicolon separated callee=harnessFunc pairs: calls to callee run the harness function instead")
 	flagConcrete = flag.String("concrete", "", "replay vector json: run with all nondets fixed (translator validation)")
 )
 
@@ -125,6 +126,17 @@ func main() {
 	}
 	if hpkg == nil || zpkg == nil {
 		fatal(fmt.Errorf("harness or zzverif package not loaded"))
+	}
+	for _, kv := range strings.Split(*flagRedirect, ";") {
+		if kv == "" {
+			continue
+		}
+		k, v, _ := strings.Cut(kv, "=")
+		f := hpkg.Func(v)
+		if f == nil {
+			fatal(fmt.Errorf("redirect target %s not found in %s", v, hpkg.Pkg.Path()))
+		}
+		redirects[k] = f
 	}
 	loadS := time.Since(t0).Seconds()
 	if *flagVerbose {
@@ -257,6 +269,7 @@ func newWorker(id int, prog *ssa.Program, hpkg, zpkg *ssa.Package) (w *Worker, e
 	}()
 	w.funcs = map[string]bool{}
 	w.stubs = map[string]int{}
+	w.initDone = true
 	w.maxSteps = *flagMaxSteps
 	return w, err
 }
